@@ -22,7 +22,6 @@ type numRoles struct {
 	why                                    string
 }
 
-
 func numericRoles(p *Program) *numRoles {
 	if p.memoNumRoles != nil {
 		return p.memoNumRoles
